@@ -9,7 +9,8 @@ THEOREMS = ["GrpcProofs.C39." + t for t in (
     "run_reach", "in_use_is_first_usable", "not_usable_means_failed_or_timed_out",
     "lower_started_only_after_higher_failed_or_timed_out", "lower_closed_when_higher_ready",
     "parent_picker_is_in_use_childs", "init_timer_only_before_failure",
-    "started_iff_active_in_balancer_group", "stopped_child_is_cached_or_closed")]
+    "started_iff_active_in_balancer_group", "stopped_child_is_cached_or_closed",
+    "callbacks_wait_only_after_deadline", "stale_callback_is_noop", "callback_acts_only_on_its_own_expired_timer")]
 DESIGN_REF = "DESIGN.md section 8, C39"
 TECHNIQUE = "Lean 4 inductive invariant over an executable model of the priority policy (+ the balancer group's sub-balancer cache) + T2 correspondence under testing/synctest"
 LEVEL_TEXT = ("Machine-checked proof of an inductive invariant of a model of the priority policy, for every history of config updates "
@@ -17,7 +18,9 @@ LEVEL_TEXT = ("Machine-checked proof of an inductive invariant of a model of the
               "stopped or removed ones, also replayed from the balancer group's cache), init-timer and cache expirations: the child in "
               "use is the highest priority that is READY, IDLE or CONNECTING within its init timeout, else the lowest; every priority "
               "above it is started and has failed or timed out; every priority below it is stopped; the state last sent to the parent "
-              "is the in-use child's connectivity state and picker. The model is diffed against the real balancer (built by its "
+              "is the in-use child's connectivity state and picker; the callback of an init timer acts only if that timer is still the "
+              "child's current one and its deadline has passed (a stopped timer's callback that was already dispatched is a no-op, so a "
+              "child that re-connects keeps its whole new timeout). The model is diffed against the real balancer (built by its "
               "builder, real balancergroup, virtual time) after every operation.")
 LEVEL_NOTE = ("Trusted: Lean kernel; the hand model in lean/GrpcModel/Model/Priority.lean (tied by the differential run: childInUse, "
               "priorities, every child's started flag / connectivity state / picker identity / reportedTF / init-timer presence, every "
@@ -27,13 +30,19 @@ LEVEL_NOTE = ("Trusted: Lean kernel; the hand model in lean/GrpcModel/Model/Prio
               "sub-balancer in its cache for 15 minutes before Close unless GRPC_EXPERIMENTAL_ENABLE_PRIORITY_LB_CHILD_POLICY_CACHE "
               "semantics change that - the tie observes the delayed Close. `failed or timed out` = TRANSIENT_FAILURE, or CONNECTING "
               "with no init timer (expired, or re-connecting after a failure). Statements hold at quiescence (after the run goroutine "
-              "has handled the queued updates); during UpdateClientConnState picker updates are inhibited by design.")
+              "has handled the queued updates); during UpdateClientConnState picker updates are inhibited by design. The window "
+              "between an init timer firing and its callback obtaining the balancer's mutex is driven explicitly: the harness wraps "
+              "the package's timeAfterFunc (overlay shim) so that a fired callback can be parked (`hold 1`) and released later "
+              "(`release`), ops `dispatch` / `runcb` of the model; monitor P6 checks on the implementation's own snapshots that a started "
+              "child which did not report and was not restarted loses its init timer only after the timer's deadline.")
 GAP = "child policies whose UpdateClientConnState fails; duplicate names in `priorities`; ExitIdle / ResolverError forwarding; Close"
 ASSUMPTIONS = ["priority names are distinct", "children report IDLE/CONNECTING/READY/TRANSIENT_FAILURE only"]
 RULE = ("1..4 priorities out of 6 names with two child policy types: fail-over chains (CONNECTING/TF/READY/IDLE reports, sleeps "
         "around the 10 s init timeout and the 15 min cache timeout), config updates that re-order, insert at any position, remove, "
         "retype or remove all priorities between reports, reports from stopped / removed / never-built children, CONNECTING after "
-        "READY (timer restart) vs after TF (no restart); non-trivial = at least three different values of childInUse in the case")
+        "READY (timer restart) vs after TF (no restart); held init-timer callbacks (the window between a timer firing and its callback "
+        "taking the mutex: the child reports READY/IDLE/TF and CONNECTING again, configs are re-ordered, then the parked callbacks "
+        "are released in order); non-trivial = at least three different values of childInUse in the case")
 
 
 def cfg(prios, types):
@@ -107,7 +116,51 @@ def sc_timers(rng):
     return ops
 
 
-FAMILIES = [(sc_failover, 4), (sc_reconfig, 5), (sc_timers, 3)]
+def sc_held_callbacks(rng):
+    """the window between an init timer firing and its callback obtaining the balancer's mutex: with `hold 1` a fired
+    callback parks; the child may meanwhile report READY/IDLE/TF (timer stopped) and CONNECTING again (new timer armed);
+    `release` lets the oldest parked callback run"""
+    prios = [1, 2, 3][:rng.randrange(2, 4)]
+    types = {p: "A" for p in prios}
+    ops = [cfg(prios, types), "hold 1"]
+    for p in prios:
+        if rng.random() < 0.6:
+            ops.append("child %d 1" % p)
+    for rnd in range(rng.randrange(1, 4)):
+        ops.append("sleep %d" % rng.choice([10000, 10000, 9999, 10001, 20000]))
+        # between the dispatch and the release: stop the timer and possibly arm a new one
+        for k in range(rng.randrange(0, 5)):
+            p = rng.choice(prios)
+            r = rng.random()
+            if r < 0.45:
+                ops.append("child %d %d" % (p, rng.choice([2, 0, 3])))
+                if rng.random() < 0.7:
+                    if rng.random() < 0.4:
+                        ops.append("child %d 0" % p)
+                    ops.append("child %d 1" % p)
+            elif r < 0.6:
+                ops.append("child %d 1" % p)
+            elif r < 0.7:
+                ops.append("sleep %d" % rng.choice([1, 5000, 10000]))
+            elif r < 0.8:
+                q = list(prios)
+                rng.shuffle(q)
+                ops.append(cfg(q, types))
+            else:
+                ops.append("release")
+        for k in range(rng.randrange(1, 4)):
+            ops.append("release")
+        if rng.random() < 0.3:
+            ops.append("hold %d" % rng.randrange(2))
+        if rng.random() < 0.5:
+            ops.append("child %d %d" % (rng.choice(prios), rng.choice([1, 2, 3, 0])))
+    ops.append("sleep %d" % rng.choice([10000, 20000]))
+    ops.append("release")
+    ops.append("release")
+    return ops
+
+
+FAMILIES = [(sc_failover, 4), (sc_reconfig, 5), (sc_timers, 3), (sc_held_callbacks, 4)]
 
 
 def gen(rng, tier):
